@@ -384,7 +384,7 @@ PROPS['C09'] = dict(
 RULE_ADDENDA = {
     'C01': "Also: slowSave (a Save parked inside the Persistence while the read routine and a publisher of the other level store); "
            "1 in 4 histories start from an adopted session whose pending identifiers stand 1-3 before the 14-bit wrap; every "
-           "history draws pipe-like or socket-like connections. writerStuckThenReadFails (a publisher parked inside Write while only the inbound direction fails: the read routine must give the connection up); emptyPayloadCut (a fault right behind a packet without payload). Behind the recording Persistence double sits, per case, its own map (5 in 8), the library's in-memory map (2 in 8) or mqtt.FileSystem on a scratch directory (1 in 8). One case in five runs on a session made the way VolatileSession makes it (the library's map, no checksum layer). brokerSend (inbound traffic of all levels shares the read routine's buffers). CleanSession is requested in 1 of 3 histories. One case in four ends over a link which is slow yet steady: from the drain on every connection's write deadline expires after progress each 19 bytes; the backlog must go out all the same.",
+           "history draws pipe-like or socket-like connections. writerStuckThenReadFails (a publisher parked inside Write while only the inbound direction fails: the read routine must give the connection up); emptyPayloadCut (a fault right behind a packet without payload). Behind the recording Persistence double sits, per case, its own map (5 in 8), the library's in-memory map (2 in 8) or mqtt.FileSystem on a scratch directory (1 in 8). One case in five runs on a session made the way VolatileSession makes it (the library's map, no checksum layer). brokerSend (inbound traffic of all levels shares the read routine's buffers). CleanSession is requested in 1 of 3 histories. One case in four ends over a link which is slow yet steady: from the drain on every connection's write deadline expires after progress each 19 bytes; the backlog must go out all the same. After every ReadSlices error of the shared appStep action: ReadBackoff is nil for ErrClosed only.",
     'C02': "Also: the first process asks for a clean session in 1 of 3 histories (the adopting processes never do); the broker "
            "model forgets its session on a CONNECT which carries the flag. Behind the recording Persistence double sits, per case, its own map (5 in 8), the library's in-memory map (2 in 8) or mqtt.FileSystem on a scratch directory (1 in 8). TestC02FullWindow: adoption of a synthetic store with 16384, 16383 or 8192 transfers of one level pending, the oldest at identifier 0, 1, 0x1fff, 0x2000, 0x3ffe or 0x3fff, for level 2 with 0, 1, half, all but one or all at the PUBREL stage: exactly these are on the first connection, in order; a further publish gets ErrMax exactly when 16384 are pending. At one stop point in four the adoption is tried twice: the first try runs into a transient Load error (the n-th Load fails, n in 1-6); at one in five of the others the first try has limits of 1-3 (refused when more is pending): nothing accepted may get lost over either.",
     'C03': "Also: the first process asks for a clean session in 1 of 3 histories (the adopting processes never do); the broker "
@@ -407,13 +407,13 @@ RULE_ADDENDA = {
     'C09': "Also: the over-the-limit payload class is drawn in 1 of 8 quick-tier cases. The over-the-limit string class also comes as 21,846 three-byte characters (over 65,535 bytes, under 65,535 characters). TestC09MaxSize: the six publish methods x topic lengths {1,2,7,100,65535} x remaining length 268,435,455 -7..+3 on an offline client with a fired quit (nothing of the 256 MiB is read): up to the limit never IsDeny, beyond it IsDeny. Strings with U+0000 behind a multi-byte character.",
     'C10': "Also: reader states skipping-dup-big (discarding the payload of a retransmitted exactly-once message larger than the "
            "read buffer, tail outstanding) and holding-big-tail-outstanding; failure 'silence' (nothing but PauseTimeout); in state handshake the broker may stay silent for good. Extra "
-           "invariant: once ReadSlices reported an error while reading from a connection, no later ReadSlices reads from it. Reader state connack-arrives-under-slow-save (a persisted publish is inside a parked Persistence.Save when the CONNACK is released). mid-packet-stall prefixes also end inside the remaining-length bytes. Behind the recording Persistence double sits, per case, its own map (5 in 8), the library's in-memory map (2 in 8) or mqtt.FileSystem on a scratch directory (1 in 8). One case in five runs on a session made the way VolatileSession makes it (the library's map, no checksum layer). Failed connects include Dialer errors which wrap context.Canceled / context.DeadlineExceeded. Failure read-fails-close-is-slow: the peer half-closes, the read routine's Close of the connection is held up, a writer which held the lock completes and a new Subscribe goes out meanwhile: it must be released by that loss too. Failed attempts include a Dialer which returns the bare or wrapped context.Canceled while the client is open: that is a failed attempt like any other (redial follows), not the end of the client.",
+           "invariant: once ReadSlices reported an error while reading from a connection, no later ReadSlices reads from it. Reader state connack-arrives-under-slow-save (a persisted publish is inside a parked Persistence.Save when the CONNACK is released). mid-packet-stall prefixes also end inside the remaining-length bytes. Behind the recording Persistence double sits, per case, its own map (5 in 8), the library's in-memory map (2 in 8) or mqtt.FileSystem on a scratch directory (1 in 8). One case in five runs on a session made the way VolatileSession makes it (the library's map, no checksum layer). Failed connects include Dialer errors which wrap context.Canceled / context.DeadlineExceeded. Failure read-fails-close-is-slow: the peer half-closes, the read routine's Close of the connection is held up, a writer which held the lock completes and a new Subscribe goes out meanwhile: it must be released by that loss too. Failed attempts include a Dialer which returns the bare or wrapped context.Canceled while the client is open: that is a failed attempt like any other (redial follows), not the end of the client. One case in four runs without minimum wait (ReconnectWaitMin negative): ReadBackoff channels must close within ReconnectWaitMax + 600 ms (measured twice before it counts).",
     'C11': "TestC11CounterLap: 3-40 (thorough up to 530) Subscribe/Unsubscribe requests stay unanswered (every 3rd or 7th "
            "abandoned, or none), then 8200 answered requests make the 13-bit identifier counter lap them; answers for the open "
            "ones follow in forward, reverse or interleaved order. Also: connectFails (connection lost; the next attempt parks in the Dialer or in the handshake; 1-3 requests are "
            "issued meanwhile; the attempt fails; they must return without any further ReadSlices). 1 in 8 requests carries one filter sized such that the remaining length is 126-130. Behind the recording Persistence double sits, per case, its own map (5 in 8), the library's in-memory map (2 in 8) or mqtt.FileSystem on a scratch directory (1 in 8). One case in five runs on a session made the way VolatileSession makes it (the library's map, no checksum layer). malformedPingresp (PINGRESP with a remaining length of 1 or 2 while a Ping waits); a Ping counts as answered only by the exact bytes d0 00.",
     'C12': "Also: in state dialing the Dialer may ignore the end of its context and hand out a connection after Close (it must "
-           "be closed; Close itself need not beat such a Dialer). State next-write-fails (the next Write on the connection times out or resets: DISCONNECT itself, if no request comes first). Behind the recording Persistence double sits, per case, its own map (5 in 8), the library's in-memory map (2 in 8) or mqtt.FileSystem on a scratch directory (1 in 8). One case in five runs on a session made the way VolatileSession makes it (the library's map, no checksum layer). Every error ReadSlices returns before ErrClosed must get a non-nil ReadBackoff.",
+           "be closed; Close itself need not beat such a Dialer). State next-write-fails (the next Write on the connection times out or resets: DISCONNECT itself, if no request comes first). Behind the recording Persistence double sits, per case, its own map (5 in 8), the library's in-memory map (2 in 8) or mqtt.FileSystem on a scratch directory (1 in 8). One case in five runs on a session made the way VolatileSession makes it (the library's map, no checksum layer). Every error ReadSlices returns before ErrClosed must get a non-nil ReadBackoff. State connecting-behind-a-slow-save: a publisher sits inside a parked Persistence.Save (holds its sequence lock), the connection is lost, the read routine reconnects up to the wait for that lock, the shutdown arrives, the Save completes afterwards.",
     'C13': "Also: after a violation and the redial a PUBLISH is sent on the fresh connection and must come out as sent (clean "
            "slate: no skip count, big-message marker or partial packet carried over). Setup may include 0-2 publishes per level refused by a failing Save; announced topic lengths up to 0xffff. TestC13AckBeforeWritten: 0-2 pending transfers, the next publish parks 0-12 bytes into its Write, the broker acknowledges everything including the packet in transit, the Write then ends by reset, timeout or completion: no panic, the call returns, the session goes on. Hostile packets include acknowledgements whose identifier is plausible (the one next in line among them) followed by 1-2 surplus bytes.",
     'C14': "Simulated half, state online without fault: in 1 of 3 cases an earlier persisted publish of the level was refused (its Save failed); the publish which follows must be accepted, report no submission error on its exchange and be on the wire. In 1 of 4 online cases the connection's Close reports an error (as a TLS close_notify to a peer which is gone).",
